@@ -391,9 +391,13 @@ func runVestCase(ta *TestApp, seed uint64, idx int, rep *Report, profile string)
 	if profile == "pools" {
 		nVest = rng.Intn(2)
 	}
+	tieAcct := -1 // split profile: a huge odd original vesting exactly half way through its schedule, then small splits (rounding ties)
 	for i := 0; i < nVest; i++ {
 		id := newAddr()
 		vestIds = append(vestIds, id)
+		if i == 0 && profile == "split" && rng.Chance(22) {
+			tieAcct = id
+		}
 		ov := sdk.NewCoins()
 		for _, d := range e.denoms {
 			if d == 0 || rng.Chance(70) {
@@ -421,6 +425,13 @@ func runVestCase(ta *TestApp, seed uint64, idx int, rep *Report, profile string)
 		default:
 			start = t0.Unix() - rng.I64n(1000000)
 			end = t0.Unix() + 1 + rng.I64n(10000000)
+		}
+		if tieAcct == id {
+			big1 := new(big.Int).Add(new(big.Int).Mul(new(big.Int).Add(rng.LogUniform(6), new(big.Int).Exp(bi(10), bi(int64(19+rng.Intn(8))), nil)), bi(2)), bi(1))
+			ov = sdk.NewCoins(sdk.NewCoin(denomNames[0], sdk.NewIntFromBigInt(big1)))
+			half := 1 + rng.I64n(5000000)
+			start, end = t0.Unix()-half, t0.Unix()+half
+			rep.Count("setup.huge_odd_vesting_half_way")
 		}
 		bacc := app.AccountKeeper.NewAccountWithAddress(ctx, e.addrs[id]).(*authtypes.BaseAccount)
 		if rng.Chance(15) {
@@ -478,9 +489,19 @@ func runVestCase(ta *TestApp, seed uint64, idx int, rep *Report, profile string)
 			rep.Count("trace.stale_entry_on_absent_address")
 		}
 	}
-	// a blocked module account
+	// a blocked module account: the fee collector (its account exists), or in a third of the cases a collector of the distributor
+	// whose account does not exist yet (it is created by its first payout) — blocked all the same
 	blockedAddr := app.AccountKeeper.GetModuleAddress(authtypes.FeeCollectorName)
 	app.AccountKeeper.GetModuleAccount(ctx, authtypes.FeeCollectorName)
+	if rng.Chance(33) {
+		for _, m := range []string{"governance_booster_collector", "green_energy_booster_collector"} {
+			if a := app.AccountKeeper.GetModuleAddress(m); a != nil && app.AccountKeeper.GetAccount(ctx, a) == nil {
+				blockedAddr = a
+				rep.Count("setup.blocked_address_without_account")
+				break
+			}
+		}
+	}
 	e.addrs = append(e.addrs, blockedAddr)
 	blockedId := len(e.addrs) - 1
 	e.blockedId = blockedId
@@ -506,6 +527,12 @@ func runVestCase(ta *TestApp, seed uint64, idx int, rep *Report, profile string)
 		if rng.Chance(50) {
 			lock = lock.Truncate(time.Second)
 			vest = vest.Truncate(time.Second)
+		}
+		if rng.Chance(8) {
+			// periods of a century or two (genesis validation sets no upper bound): each fits a time.Duration, their sum does not
+			lock = time.Duration(50000+rng.I64n(40000)) * 24 * time.Hour
+			vest = time.Duration(30000+rng.I64n(40000)) * 24 * time.Hour
+			rep.Count("setup.vesting_type_with_periods_of_centuries")
 		}
 		app.CfevestingKeeper.SetVestingType(ctx, vesttypes.VestingType{Name: e.vtName(int64(i)), LockupPeriod: lock, VestingPeriod: vest, Free: free})
 	}
@@ -628,6 +655,10 @@ func runVestCase(ta *TestApp, seed uint64, idx int, rep *Report, profile string)
 		choice := rng.Pick(wts...)
 		if wantSecondWithdraw >= 0 {
 			choice = 2
+		}
+		tieStep := tieAcct >= 0 && script < 0 && s < 3
+		if tieStep {
+			choice = 5
 		}
 		scripted := -1
 		if script >= 0 && scriptStep < 3 {
@@ -864,7 +895,9 @@ func runVestCase(ta *TestApp, seed uint64, idx int, rep *Report, profile string)
 				}}
 		case 5: // split
 			var from int
-			if scripted == 2 {
+			if tieStep {
+				from = tieAcct
+			} else if scripted == 2 {
 				from = script
 			} else if cs := cvas(); len(cs) > 0 && rng.Chance(92) {
 				from = cs[rng.Intn(len(cs))]
@@ -908,6 +941,12 @@ func runVestCase(ta *TestApp, seed uint64, idx int, rep *Report, profile string)
 				}
 			} else {
 				coins = sdk.Coins{sdk.NewInt64Coin(BondDenom, 5)}
+			}
+			if tieStep {
+				coins = sdk.Coins{sdk.NewInt64Coin(denomNames[0], 1+2*rng.I64n(40))}
+				if ab := absent(); len(ab) > 0 {
+					to = ab[rng.Intn(len(ab))]
+				}
 			}
 			op = vestOp{kind: "split", owner: from, to: to, coins: coins,
 				term: fmt.Sprintf("OSplit %s %s %s", zI(int64(from)), zI(int64(to)), coinsTerm(coins)),
@@ -1081,6 +1120,10 @@ func runVestCase(ta *TestApp, seed uint64, idx int, rep *Report, profile string)
 				if err == nil {
 					write()
 				}
+				// C01: pools do not record a denomination, so an accepted change re-denominates what they hold: coins of one denomination
+				// would be owed in another
+				rep.Eval("C01.pool_coins_keep_their_denomination", app.CfevestingKeeper.GetParams(ctx).Denom == before, idx, s,
+					fmt.Sprintf("the vesting denomination changed from %q to %q while pools are stored", before, app.CfevestingKeeper.GetParams(ctx).Denom))
 				rep.Eval("C06.pool_denomination_cannot_change_while_pools_exist", err != nil && app.CfevestingKeeper.GetParams(ctx).Denom == before, idx, s,
 					fmt.Sprintf("governance changed the vesting denomination from %q to %q while %d owner entries with pools are stored: what the pools lock is stranded", before, app.CfevestingKeeper.GetParams(ctx).Denom, len(stored)))
 				// C05: whatever governance decided, the module account still backs what the pools lock, in the denomination in force
@@ -1100,6 +1143,34 @@ func runVestCase(ta *TestApp, seed uint64, idx int, rep *Report, profile string)
 		obs := append(res.outTerm(), e.observe(ctx)...)
 		opTerms = append(opTerms, "("+op.term+", "+zListB(obs)+")")
 		rep.Ops++
+	}
+	// ---- epilogue on a dropped branch (C09): an address that had no account when a vesting message naming it was refused gets an
+	// account by an ordinary bank transfer; a later, otherwise valid split to it must be refused and leave that account alone
+	{
+		ec, _ := ctx.CacheContext()
+		for _, id := range cvas() {
+			lc := app.BankKeeper.LockedCoins(ec, e.addrs[id])
+			if lc.IsZero() {
+				continue
+			}
+			d := sdk.AccAddress(rng.Bytes(20))
+			tooMuch := sdk.NewCoins(sdk.NewCoin(lc[0].Denom, lc[0].Amount.AddRaw(1)))
+			_, err0 := e.ms.SplitVesting(sdk.WrapSDKContext(ec), &vesttypes.MsgSplitVesting{FromAddress: e.addrs[id].String(), ToAddress: d.String(), Amount: tooMuch})
+			fundAddr(ec, ta, d, sdk.NewCoins(sdk.NewInt64Coin(BondDenom, 7)))
+			acc0 := app.AccountKeeper.GetAccount(ec, d)
+			var before []byte
+			if acc0 != nil {
+				before, _ = app.AccountKeeper.MarshalAccount(acc0)
+			}
+			_, err1 := e.ms.SplitVesting(sdk.WrapSDKContext(ec), &vesttypes.MsgSplitVesting{FromAddress: e.addrs[id].String(), ToAddress: d.String(), Amount: sdk.NewCoins(sdk.NewCoin(lc[0].Denom, sdk.OneInt()))})
+			var after []byte
+			if acc1 := app.AccountKeeper.GetAccount(ec, d); acc1 != nil {
+				after, _ = app.AccountKeeper.MarshalAccount(acc1)
+			}
+			rep.Eval("C09.account_created_after_a_refused_message_is_not_replaced", err0 != nil && acc0 != nil && err1 != nil && string(before) == string(after), idx, nOps,
+				fmt.Sprintf("split to a fresh address refused (%v), the address funded by a bank transfer, split of 1%s to it: err=%v, account record unchanged=%v", err0 != nil, lc[0].Denom, err1, string(before) == string(after)))
+			break
+		}
 	}
 	// ---- C12: whatever state the messages left, the vesting module's exported genesis passes its own validation
 	{
